@@ -96,7 +96,7 @@ def violations_of(prop: str, root: str, overrides: dict[str, str] | None) -> tup
 
     try:
         check = run_property(prop, Program(root, overrides=overrides))
-        return {o.key for o in check.obligations if o.status == "violation"}, None
+        return {o.key for o in check.obligations if o.status == "violation"}, getattr(check, "incomplete", None)
     except AnalysisError as ex:
         return set(), str(ex)
 
